@@ -499,6 +499,7 @@ pub(crate) fn run_in_sim(sc: &Scenario, keep: bool) -> Report {
     let mut pending_crash: Vec<Option<(usize, CrashExpect)>> = (0..lists.len()).map(|_| None).collect();
     let mut active: Vec<bool> = vec![true; lists.len()];
     let mut harness_error = None;
+    let mut multi_crashes = 0u64;
 
     let res = crate::core::catch(|| {
         let mut b = turmoil::Builder::new();
@@ -522,6 +523,7 @@ pub(crate) fn run_in_sim(sc: &Scenario, keep: bool) -> Report {
             sim.host(format!("n{h}"), move || host_program(sh.clone()));
         }
         let mut consumed: Vec<usize> = vec![0; shared.len()];
+        let crash_all = shared.len() >= 2 && sc.knobs.fs_seed % 3 == 0;
         for _step in 0..2000 {
             if let Err(e) = sim.step() {
                 return Some(format!("Sim::step failed: {e}"));
@@ -556,15 +558,40 @@ pub(crate) fn run_in_sim(sc: &Scenario, keep: bool) -> Report {
                         HostEvent::Error(e) => return Some(e),
                     }
                 }
+            }
+            for h in 0..shared.len() {
                 if active[h] && shared[h].want_crash.get() {
                     shared[h].want_crash.set(false);
                     let i = shared[h].cursor.get();
                     // ---- the fault: Sim::crash, then Sim::bounce ----
                     let exp = judges[h].crash_expect();
                     pending_crash[h] = Some((i, exp));
-                    sim.crash(format!("n{h}"));
                     shared[h].cursor.set(i + 1);
-                    sim.bounce(format!("n{h}"));
+                    if crash_all {
+                        // one call that matches every host: the others lose their unsynced state as well, wherever
+                        // their programs are (asleep inside an Advance, finished, or at their own crash point)
+                        for h2 in 0..shared.len() {
+                            if h2 == h {
+                                continue;
+                            }
+                            let i2 = shared[h2].cursor.get();
+                            let own = shared[h2].want_crash.get();
+                            shared[h2].want_crash.set(false);
+                            if active[h2] {
+                                pending_crash[h2] = Some((i2, judges[h2].crash_expect()));
+                            }
+                            if own {
+                                shared[h2].cursor.set(i2 + 1);
+                            }
+                        }
+                        multi_crashes += 1;
+                        let re = regex::Regex::new("^n[0-9]+$").expect("regex");
+                        sim.crash(re.clone());
+                        sim.bounce(re);
+                    } else {
+                        sim.crash(format!("n{h}"));
+                        sim.bounce(format!("n{h}"));
+                    }
                 }
             }
             let all_done = (0..shared.len()).all(|h| !active[h] || (shared[h].cursor.get() >= shared[h].ops.len() && pending_crash[h].is_none() && !shared[h].want_crash.get()));
@@ -590,6 +617,7 @@ pub(crate) fn run_in_sim(sc: &Scenario, keep: bool) -> Report {
         rep.nontrivial |= j.nontrivial;
     }
     rep.probes.inc("in_sim_run");
+    rep.faults.add("in_sim_one_crash_call_for_all_hosts", multi_crashes);
     if sc.finish_before_crash {
         rep.probes.inc("in_sim_host_finished_before_crash");
     }
